@@ -184,11 +184,12 @@ def run(ctx):
         "both sides of the 64- and 128-byte hash blocks: 16..200) x IV/tag size x hash x variant "
         "(TINK/CRUNCHY/LEGACY/NO_PREFIX) x key id (0..0xffffffff) x route (aead.New keyset factory, keyset through its proto "
         "form, aesgcm.NewAEAD, aead/subtle, NewKMSEnvelopeAEAD2, KmsEnvelopeAeadKey keyset) x plaintext length (boundary "
-        "classes quick; every length 0..300 + block multiples thorough) x content class x associated data (nil/empty/"
+        "classes + 1 KiB / 2 KiB / 4 KiB+1 plaintext and AD quick; every length 0..300 + block multiples thorough) x content class x associated data (nil/empty/"
         "lengths). Tink->spec: TLC opens Tink's ciphertext with the TLA+ reference and checks framing + Tink's own round "
         "trip. spec->Tink: TLC (Plan_AEAD) makes ciphertexts with chosen nonces (00.., ff.., random) that Tink must "
         "decrypt; Wycheproof AES-GCM / AES-GCM-SIV (incl. counter wrap) / (X)ChaCha20-Poly1305 vectors are decrypted by "
-        "Tink and judged by the spec; POLYVAL (basis pairs, dense, chunked) and the RFC 8452 counter mode at the 32-bit "
+        "Tink and judged by the spec; POLYVAL (basis pairs, dense, chunked, single Update calls of 16..8192 bytes on both "
+        "sides of bulk-path thresholds with random / all-ones / single-non-zero-block contents) and the RFC 8452 counter mode at the 32-bit "
         "wrap are judged through verif hooks. Caller-buffer discipline on every call: inputs adjacent in one reused "
         "guarded frame (both orders, natural capacity, with/without sentinel spare capacity), frame must be intact after "
         "the call, every Decrypt issued twice from the same frame")
